@@ -1,6 +1,7 @@
 import Amgcl.Proofs.RelaxJacobi
 import Amgcl.Proofs.RelaxGS
 import Amgcl.Proofs.RelaxCheb
+import Amgcl.Proofs.RelaxChebPoly
 import Amgcl.Proofs.RelaxIlu
 import Amgcl.Proofs.RelaxCheck
 import Amgcl.Proofs.RelaxIlu0
@@ -310,6 +311,40 @@ theorem cheb_affine_fixed [LT K] [DecidableLT K] (prm : ChebParams K) (s : ChebS
     exact chebSolve_size s A hM f x _ _ hx
   exact ⟨fun _ _ _ _ => rfl, fun _ _ _ _ => rfl, hlin, hlin, hsz, hsz, hfix, hfix⟩
 
+/-- **`cheb_is_chebyshev_poly`.**  The sweep realises the degree-`k` Chebyshev residual polynomial for the ellipse
+`(c, d)` (`k = degree`): with `Â = M·A` (`M` the inverted diagonal when `scale`, else `I`), `r = M(b − A x)` the scaled
+residual (`chebResid`, entrywise `getD_chebResid`), and `Z = (d·I − Â)/c`,
+
+    `T_k(d/c) · r_k = T_k(Z) r_0`      entrywise,
+
+where `T_k` is Mathlib's Chebyshev polynomial of the first kind and `T_k(Z) r_0 = chebY … k` is generated by the
+three-term recurrence `y_0 = r_0`, `y_1 = Z r_0`, `y_{k+2} = 2 Z y_{k+1} − y_k` (`chebY_recurrence`).  Hypotheses:
+characteristic `≠ 2`, `c ≠ 0`, and `T_j(d/c) ≠ 0` for `1 ≤ j ≤ k` — precisely the denominators `solve` divides by
+(`j = 1`: `d ≠ 0`; `j = 2`: `2d² − c² ≠ 0`; …); no symmetry, definiteness or ordering is assumed, the scratch members
+`p, r` are arbitrary. -/
+theorem cheb_is_chebyshev_poly (s : ChebState K) (A : CRS K) (hM : s.scale = true → s.M.size = A.nrows)
+    (hc : s.c ≠ 0) (h2 : (2 : K) ≠ 0) (b x p r : Vec K) (hx : x.size = A.nrows)
+    (hτ : ∀ j : Nat, 1 ≤ j → j ≤ s.degree → (Polynomial.Chebyshev.T K (j : ℤ)).eval (s.d / s.c) ≠ 0)
+    (i : Nat) (hi : i < A.nrows) :
+    (Polynomial.Chebyshev.T K (s.degree : ℤ)).eval (s.d / s.c)
+        * (chebResid s A b (chebSolve s A b x p r).1).getD i 0
+      = (chebY s A (chebResid s A b x) s.degree).getD i 0 := by
+  rw [← chebT_eq_eval]
+  exact chebSolve_poly s A hM hc h2 b x p r hx (fun j h1 h2' => by rw [chebT_eq_eval]; exact hτ j h1 h2') i hi
+
+/-- what `chebY`, `chebZ`, `chebAhat`, `chebResid` are, entry by entry -/
+theorem chebY_recurrence (s : ChebState K) (A : CRS K) (hM : s.scale = true → s.M.size = A.nrows) (r0 b x v : Vec K)
+    (k i : Nat) (hi : i < A.nrows) :
+    chebY s A r0 0 = r0 ∧ chebY s A r0 1 = chebZ s A r0
+    ∧ (chebY s A r0 (k + 2)).getD i 0
+        = 2 * (chebZ s A (chebY s A r0 (k + 1))).getD i 0 - (chebY s A r0 k).getD i 0
+    ∧ (chebZ s A v).getD i 0 = (s.d * v.getD i 0 - (chebAhat s A v).getD i 0) / s.c
+    ∧ (chebAhat s A v).getD i 0 = chebM s i * rowDot (A.row i) v
+    ∧ (chebResid s A b x).getD i 0 = chebM s i * (b.getD i 0 - rowDot (A.row i) x)
+    ∧ chebM s i = (if s.scale then s.M.getD i 0 else 1) :=
+  ⟨rfl, rfl, getD_chebY_succ_succ s A r0 k i hi, getD_chebZ s A v i hi, getD_chebAhat s A v i hi,
+   getD_chebResid s A hM b x i hi, rfl⟩
+
 theorem cheb_fixed_point [LT K] [DecidableLT K] (prm : ChebParams K) (A : CRS K)
     (hd : prm.scale = true → hasDiagb A = true) (f x t : Vec K) (hx : x.size = A.nrows) (hf : f.size = A.nrows)
     (h : ∀ i, i < A.nrows → rowDot (A.row i) x = f.getD i 0) :
@@ -588,6 +623,21 @@ example := cheb_fixed_point (K := ℚ) ⟨3, 1, 1/30, true⟩ exA (by intro _; d
   exA_solves
 example := cheb_affine_fixed (K := ℚ) ⟨4, 11/10, 1/4, false⟩ (chebSetup ⟨4, 11/10, 1/4, false⟩ exA) exA
   (by intro h; exact absurd h (by decide))
+/-- degree-2 Chebyshev smoother on `exA` with the default `lower = 1/30` -/
+def exCheb : ChebState ℚ := chebSetup ⟨2, 1, 1/30, false⟩ exA
+theorem exCheb_ok : exCheb.c ≠ 0 ∧ chebT (exCheb.d / exCheb.c) 1 ≠ 0 ∧ chebT (exCheb.d / exCheb.c) 2 ≠ 0 := by
+  decide +kernel
+example := cheb_is_chebyshev_poly exCheb exA (by intro h; exact absurd h (by decide)) exCheb_ok.1 (by norm_num)
+  #[1, 2, 3] #[0, 0, 0] #[] #[] rfl
+  (by
+    intro j h1 h2
+    rw [← chebT_eq_eval]
+    have hdeg : exCheb.degree = 2 := rfl
+    have : j = 1 ∨ j = 2 := by omega
+    rcases this with rfl | rfl
+    · exact exCheb_ok.2.1
+    · exact exCheb_ok.2.2)
+  0 (by decide)
 -- ILU(0): the constructor succeeds on `exA`, the factors are strictly triangular with non-zero stored pivots
 /-- the factors of `exA` (tridiagonal: ILU(0) is the exact LU factorisation) -/
 def exF : IluFactors ℚ := ⟨⟨3, #[[], [(0, -1/2)], [(1, -2/9)]]⟩, ⟨3, #[[(1, -1)], [(2, -1)], []]⟩, #[1/4, 2/9, 9/25]⟩
